@@ -25,6 +25,7 @@ def extra(work, v, thorough):
 
 
 PLAN = {
+    "api": True,
     "mc": [("StoreMC_close.cfg", False, True), ("StoreMC_close2.cfg", True, True)],
     "sims": [("StoreSim_close.cfg", 200, 1500, 61)],
     "drivers": [("TestVerif_StoreClose", 40, 300, "store_close.ndjson", None)],
